@@ -70,6 +70,15 @@ def P5w():
     return C("P5w", kind="factory", quota=1, workers=1, wid_offset=1000, calls=[("imap", "list", 2, 1), ("imap", "list", 2, 1)])
 
 
+def P12():
+    # two pools alive at the same time, used alternately
+    return C("P12", workers=1, second_pool=True, calls=[("imap", "list", 2, 1), ("imap", "list", 1, 1), ("imap_unordered", "list", 1, 1)])
+
+
+def P13():
+    return C("P13", kind="factory", quota=1, workers=1, second_pool=True, calls=[("imap", "list", 1, 1), ("imap", "list", 2, 1)])
+
+
 def P11():
     # both generators are created up front and then consumed one after the other
     return C("P11", workers=1, precreate=True, calls=[("imap_unordered", "list", 2, 1), ("imap", "list", 1, 1)])
